@@ -234,3 +234,66 @@ func (p *Prog) moduleSuppliedFuncParam(prm *ssa.Parameter) bool {
 	}
 	return true
 }
+
+// isEmptyNullValue: v is the reader's EmptyNull option - a load of a field of that name, or a bool parameter of
+// an unexported function that receives the option at every one of its (all known) call sites.
+func (p *Prog) isEmptyNullValue(v ssa.Value, d int) bool {
+	if fieldNameOfLoad(v) == "EmptyNull" {
+		return true
+	}
+	prm, ok := v.(*ssa.Parameter)
+	if !ok || d > 3 {
+		return false
+	}
+	fn := prm.Parent()
+	sites, asValue := p.staticCallSites(fn)
+	if asValue || len(sites) == 0 || token.IsExported(fn.Name()) {
+		return false
+	}
+	ix := -1
+	for i, q := range fn.Params {
+		if q == prm {
+			ix = i
+		}
+	}
+	for _, s := range sites {
+		args := s.Common().Args
+		if ix < 0 || ix >= len(args) || !p.isEmptyNullValue(args[ix], d+1) {
+			return false
+		}
+	}
+	return true
+}
+
+// underEmptyNull: block b runs only when the EmptyNull option is set.
+func (p *Prog) underEmptyNull(b *ssa.BasicBlock) bool {
+	for _, g := range dominatingGuards(b) {
+		if g.Val && p.isEmptyNullValue(g.Cond, 0) {
+			return true
+		}
+	}
+	return false
+}
+
+// impliesEmptyNull: the boolean v can be true only when the EmptyNull option is set: the option itself, or the
+// phi of a short-circuit conjunction each of whose edges is the constant false, the option, or a value computed
+// on a branch taken only when the option is set.
+func (p *Prog) impliesEmptyNull(v ssa.Value) bool {
+	if p.isEmptyNullValue(v, 0) {
+		return true
+	}
+	phi, ok := v.(*ssa.Phi)
+	if !ok {
+		return false
+	}
+	for i, e := range phi.Edges {
+		if isConstBool(e, false) || p.isEmptyNullValue(e, 0) {
+			continue
+		}
+		if p.underEmptyNull(phi.Block().Preds[i]) {
+			continue
+		}
+		return false
+	}
+	return true
+}
